@@ -215,11 +215,11 @@ func (c *Collection) readState(src io.Reader) (map[commit.Chunk]uint64, error) {
 func (c *Collection) chunks() int {
 	c.lock.Lock()
 	defer c.lock.Unlock()
-	if len(c.fill) == 0 {
-		return 0
+	max, ok := c.fill.Max()
+	if !ok {
+		return 0 // no rows (the fill-list may have been allocated by an insert that failed or rolled back)
 	}
 
-	max, _ := c.fill.Max()
 	return int(commit.ChunkAt(max) + 1)
 }
 
